@@ -691,8 +691,8 @@ def _lin_vars(e, depth=0):
     return None
 
 
-def rule_opus_catalogue_slot(prog, fixture=False):
-    r = RuleResult("R-C01-7", "the catalogue of Opus volume number i (letter 'A'+i) is looked for at sectors 2i, 2i+1 "
+def rule_opus_catalogue_slot(prog, fixture=False, rule_id="R-C01-7"):
+    r = RuleResult(rule_id, "the catalogue of Opus volume number i (letter 'A'+i) is looked for at sectors 2i, 2i+1 "
                    "of track 0 - a function of the letter alone, not of how many earlier volumes exist",
                    floor=0 if fixture else 1)
     for fn in prog.functions.values():
